@@ -145,6 +145,28 @@ def strict_agrees(d):
     return False
 
 
+def deep_run(shape):
+    """container nesting directly above the deepest-nested struct on a fault path ("" if < 2 levels);
+    same reading as c08DeepRun in harness/c08_nest.go"""
+    best, cur = [], []
+    for p in shape.split("/"):
+        if p in ("array", "dict"):
+            cur.append(p)
+        elif p.startswith("ref(") or p == "nullable":
+            pass
+        elif p == "struct" or p.startswith("struct."):
+            if len(cur) >= 2 and len(cur) > len(best):
+                best = list(cur)
+            cur = []
+        else:
+            cur = []
+    return "/".join(best)
+
+
+STRICT_KINDS = ("undeclaredKey", "missingRequired", "nullRequired")
+DEEP_NESTINGS = ("dict/array", "array/dict", "dict/dict", "array/array")
+
+
 def outside_model(s):
     return s.startswith("unsup") or s == "fuel" or s.startswith("fuel")
 
@@ -155,6 +177,7 @@ class Runner:
         self.stats = collections.Counter()
         self.kinds = collections.Counter()
         self.shapes = collections.Counter()
+        self.deep = collections.Counter()   # (container nesting above the struct, fault kind), inside the strict model
         self.known = list(c.known)   # /verif/known_findings.json, property C08 (`fixed` entries suppress nothing)
         c.known = self.known
         self.pending = []      # unexplained oracle failures (to shrink)
@@ -182,6 +205,10 @@ class Runner:
                 self.shapes[tok] += 1
             st["docs"] += 1
             st["alias_of_alias_paths"] += ("ref(ref)" in d.shape and d.kind != "valid")
+            if d.kind != "valid" and deep_run(d.shape):
+                self.deep[deep_run(d.shape) + " " + d.kind] += 1
+                st["deep_faults"] += 1
+                st["deep_faults_outside_strict_model"] += outside_model(d.tmodel)
             text = None
             # ---- correspondence: model of the generated code vs the generated code ----
             v_out = outside_model(d.vmodel)
@@ -379,7 +406,11 @@ def main():
     #    required fields with zero-valued defaults, documents omitting one required-with-default member
     r.stream("c08-lab-alias2", n=16 if quick else 80, seed=c.seed + 11, formats="jsonschema,openapi,cue",
              aliasify=1, zerodefaults=1, omit=3, switches=NO_NULL_ELEMS, docs=4, faults=12 if quick else 24)
-    # 5. exclusive bounds in the three formats, documents exactly on every bound
+    # 5. structs below two or three container levels (map→array→struct, array→map→struct, map→map→struct,
+    #    array→array→struct, inner container inline or a named collection), faults inside those structs
+    r.stream("c08-lab-nest", n=24 if quick else 72, seed=c.seed + 13, formats="jsonschema,openapi,cue",
+             deepnest=1, deep=10 if quick else 12, switches=NO_NULL_ELEMS, docs=3, faults=4)
+    # 6. exclusive bounds in the three formats, documents exactly on every bound
     r.stream("c08-excl", hstream="c08-excl", n=5 if quick else 40, seed=c.seed)
     r.report()
 
@@ -396,7 +427,12 @@ def main():
     c.oblige("alias-of-alias definitions occur on fault paths", st["alias_of_alias_paths"] > 0, dict(st))
     c.oblige("nesting exercised: constraints under arrays, maps, references and unions occur",
              all(r.shapes[k] > 0 for k in ("array", "dict", "ref", "oneOfStructs", "oneOfScalars")), dict(r.shapes))
+    c.oblige("container nestings exercised: undeclared / missing / null-required faults inside a struct below "
+             "map→array, array→map, map→map and array→array occur, inside the strict model",
+             all(r.deep[n + " " + k] > 0 for n in DEEP_NESTINGS for k in STRICT_KINDS)
+             and st["deep_faults_outside_strict_model"] * 10 <= st["deep_faults"], dict(r.deep))
     c.cov["distribution"] = {"fault_kinds": dict(r.kinds), "constructs_on_fault_paths": dict(r.shapes),
+                             "faults_below_two_or_more_containers": dict(r.deep),
                              "stats": {k: v for k, v in st.items()}}
     c.cov["oracle_failures"] = st["oracle_failures"]
     c.finish(cmd, rule,
